@@ -79,8 +79,9 @@ CLAIMED.update({
     "C13": ("E2 mir-smt (stateful)", "9.3 C13", "Leaf-tag clause only: both copies of each leaf parser (binary, bit-binary, string, small/large big, the atom tags, "
             "small integer, integer, new float) are executed from their MIR by the stateful interpreter on the same abstract input (symbolic length, "
             "shared field symbols per offset, shared UTF-8 validity); z3 decides that no owned path and zero-copy path with different outcomes "
-            "(accept / reject / panic) are jointly satisfiable and that both hand the same sign to BigInt::new. Container tags, identifiers, "
-            "to_owned and the reported error offset are outside (decode_borrowed exhausts memory under CBMC).",
+            "(accept / reject / panic) are jointly satisfiable and that both hand the same sign to BigInt::new; BorrowedTerm::to_owned, executed from its "
+            "MIR on Nil / Integer / lists and tuples of 0..2 integers (one nesting level), keeps variant, element count and integers. The recursive "
+            "container parsers, identifiers and the reported error offset are outside (decode_borrowed exhausts memory under CBMC).",
             "MIR->SMT symbolic execution of both parser copies on a shared abstract input + z3 per path pair; native replay on every prefix of a crafted input"),
     "C14": ("E2 mir-smt (stateful)", "9.3 C14", "Writer clause only: the MIR of encode_with_dist_header_multi, collect_atoms, encode_term_with_cache / encode_term_impl (Atom arm) "
             "and encode_atom_impl runs in the stateful MIR interpreter on 1..3 atom terms whose identities and byte lengths (0..131071) are symbolic "
